@@ -279,6 +279,18 @@ pub fn run(args: &[String]) {
         }
         emit(&mut w, &s);
     }
+    // (e) generated programs of the reference grammar in every layout (also decides C04 on the implementation)
+    for _ in 0..arg_u64(args, "--programs", 0) {
+        let size = 1 + rng.below(8) as usize;
+        let depth = rng.below(5) as u32;
+        let prog = crate::gen::Gen { rng: &mut rng, sema_safe: false }.program(size, depth);
+        let lay = crate::gen::Layout { redundant_parens: rng.below(3) == 0, trivia: rng.below(3) as u8 };
+        let (text, _) = crate::gen::print_program(&prog, lay, &mut rng);
+        let (r, o) = tree_case(&text);
+        let clean = r.contains(";PE=;LE=;VT=;VE=0;");
+        let o = if o == "ok" && !clean { "FAIL C04: syntax diagnostics on a program of the reference grammar".to_string() } else { o };
+        writeln!(w, "tree\t{}\t{}\t{}", enc_text(&text), r, o).unwrap();
+    }
     // (d) fragment soups as in the lex family
     for _ in 0..arg_u64(args, "--random", 0) {
         let frags: &[&str] = &["x", " ", "\n", "1", "1.", ".5", "e", "ns", "im", "(", ")", "[", "]", "{", "}", ";", ",", "=", "+", "-", "*", "/", "<", ">", "!", "&", "|", "^", "%", "~", ":", "@", "$1", "\"01\"", "'ab'", "int", "float", "qubit", "gate", "def", "if", "else", "for", "in", "while", "return", "measure", "reset", "let", "const", "delay", "box", "array", "complex", "bit", "ctrl", "inv", "pow", "negctrl", "gphase", "switch", "case", "default", "include", "extern", "input", "output", "barrier", "break", "end", "creg", "qreg", "OPENQASM 3;", "pragma x\n", "// c\n", "/* c */", "->", "é", "😀", "#"];
